@@ -36,8 +36,9 @@ func StrProps(propContainer map[string]object.PanObject) map[string]object.PanOb
 					return object.NewTypeErr("== requires at least 2 args")
 				}
 
-				// necessary for Str itself! (guarantee `Str == Str`)
-				if args[0] == object.BuiltInStrObj && args[1] == object.BuiltInStrObj {
+				// necessary for Str itself and its children made by bear!
+				// (guarantee `Str == Str` and `child == child`)
+				if args[0] == args[1] {
 					return object.BuiltInTrue
 				}
 
